@@ -1,4 +1,4 @@
-//@ unit u5b_recompute props C09
+//@ unit u5b_recompute props C09 also C18
 // Unit U5b: the chained history digest (src/database/daily_log.rs, DailyLogsUpdate::compute).  "The daily log is a function of
 // the stored content, nothing else": whatever rows the recomputation query returns, the history digest written for a day is the
 // chain over the days of the SAME room and entity - started from the stored digest of the last clean day, or from the day's own
@@ -137,6 +137,9 @@ pub proof fn lemma_expected_prefix(s: Seq<Day>, x: Day, k: int)
 //@ rewrite E16 "\"-\"\.to_string\(\)" => "fmt_stub()" x1
 //@ insert body-start
         let ghost mut seen: Seq<Day> = Seq::empty();
+        let ghost mut reported: Seq<(Uid, Seq<char>, i64)> = Seq::empty();
+//@ insert after-stmt "self.add_log(DailyLog {"
+                proof { reported = reported.push((room, entity@, date)); }
         proof { assert(<[u8; 16] as PartialEqSpec<[u8; 16]>>::obeys_eq_spec()); }
 //@ loop "while let Some(row) = rows.next()?"
             invariant no_zero_room(rows.rem()), rooms_not_zero(logs@),
@@ -176,6 +179,8 @@ pub proof fn lemma_expected_prefix(s: Seq<Day>, x: Day, k: int)
                 assert(ov(history_hash) == expected_hist(seen.push(dirty_day), k));
 //@ insert after-stmt "previous_entity = entity;" #2
                 proof { seen = seen.push(dirty_day); }
+                // [every_recomputed_day_is_reported_for_the_data_changed_event]{C18} every (room, entity, day) that was recomputed - also a day that became empty - is handed to the log update from which the data-changed event is built
+                assert(reported.len() > 0 && reported.last() == (g_room, g_entity, date));
 //@ end
 } // verus!
 fn main() {}
